@@ -1161,7 +1161,8 @@ class Normaliser:
                 elif isinstance(n, ast.alias) and n.name in self.helpers:
                     refs[n.name] = refs.get(n.name, 0) + 1
         for name, h in self.helpers.items():
-            if refs.get(name, 0) == 0:
+            # only private helpers are dropped: a new public function is part of the interface even if nothing in the package calls it
+            if refs.get(name, 0) == 0 and name.startswith('_'):
                 tree = self.modules[h.path].tree
                 if self._remove_stmt(tree, h.func):
                     self.log.append(f'N5 {h.path}: new helper {h.qual} has no remaining reference, dropped')
